@@ -43,7 +43,7 @@ PROPS = {
               'its fault-free result and a fixed probe its reference output, with no sanitizer report; distinct = '
               '(op, curve) baselines and (op, signalled?, leaked?) failure outcomes'),
         stages=[
-            ('allocsim', 'D', 1400, 200, 6000, 2400, {}),
+            ('allocsim', 'D', 900, 150, 6000, 2400, {}),
             # capacity faults: the same op table on the static-allocation build with operands at and beyond the precision
             ('allocsim', 'A', 1500, 60, 60000, 600, {}),
             # sanitizers as monitors inside the other engines (same seeds as their own checks)
